@@ -47,7 +47,20 @@ def table_arrays(tbl):
     for ax in ("z", "lat", "lon"):
         out[ax] = col(tbl[ax]) if tbl.get(ax) is not None else None
     out["n"] = len(next(iter(tbl["cols"].values()))) if tbl["cols"] else len(tbl.get("times") or [])
+    # every column a config may name as a stream id: the data columns and, under their column names, z/lat/lon
+    ext = OrderedDict(out["cols"])
+    nm = axis_names(tbl)
+    for ax in ("z", "lat", "lon"):
+        if out[ax] is not None and nm[ax] not in ext:
+            ext[nm[ax]] = out[ax]
+    out["cols_ext"] = ext
     return out
+
+
+def stream_id_universe(tbl):
+    """Stream ids the source can serve: data columns plus the axis columns z / lat / lon."""
+    nm = axis_names(tbl)
+    return set(tbl["cols"]) | {nm[ax] for ax in ("z", "lat", "lon") if tbl.get(ax) is not None}
 
 
 def make_index(tbl, n):
@@ -327,7 +340,7 @@ def direct_call(entry, arrays, rows, axes_present=None):
     mod = import_module(f"ioos_qc.{entry['module']}")
     func = getattr(mod, entry["test"])
     kwargs = json.loads(json.dumps(entry["params"])) if entry.get("params") else {}
-    kwargs["inp"] = arrays["cols"][entry["sid"]][rows].copy()
+    kwargs["inp"] = arrays["cols_ext"][entry["sid"]][rows].copy()
     have = axes_present or {
         "tinp": arrays["time"] is not None,
         "zinp": arrays["z"] is not None,
@@ -338,7 +351,9 @@ def direct_call(entry, arrays, rows, axes_present=None):
     for ax in AXES:
         if have.get(ax) and src[ax] is not None:
             kwargs[ax] = src[ax][rows].copy()
-    valid = [p.name for p in signature(func).parameters.values() if p.kind == p.POSITIONAL_OR_KEYWORD]
+    # "called directly with that context's parameters": everything the function accepts by keyword
+    # (the stream's axes it has no parameter for are simply not its inputs)
+    valid = [p.name for p in signature(func).parameters.values() if p.kind in (p.POSITIONAL_OR_KEYWORD, p.KEYWORD_ONLY)]
     kwargs = {k: v for k, v in kwargs.items() if k in valid}
     try:
         res = func(**kwargs)
@@ -378,11 +393,11 @@ def make_stream(frontend, tbl):
     if frontend == "pandas":
         return PandasStream(make_df(tbl), **kw), None
     if frontend == "numpy":
-        inp = OrderedDict((k, v.copy()) for k, v in a["cols"].items())
+        inp = OrderedDict((k, v.copy()) for k, v in a["cols_ext"].items())
         if tbl.get("readonly"):
             for v in inp.values():
                 v.setflags(write=False)  # a caller may well hand over arrays it does not want written
-        if tbl.get("numpy_single") and len(inp) == 1:
+        if tbl.get("numpy_single") and len(a["cols"]) == 1:
             inp = next(iter(inp.values()))
         return (
             NumpyStream(
